@@ -2,6 +2,7 @@ package mon
 
 import (
 	"fmt"
+	"github.com/ChrisTrenkamp/xsel"
 
 	"xselverif/internal/adoc"
 	"xselverif/internal/evid"
@@ -100,6 +101,12 @@ func c01Case(r *evid.Run, tier string, idx int, g *rng.R) {
 	if err != nil {
 		r.Violate("store-tree-mismatch", map[string]any{"case": idx, "what": err.Error(), "document": d.Dump()})
 		return
+	}
+	if o.NS > 0 && idx%5 == 2 {
+		// an embedding program that copies a document's in-scope namespaces into the query binds the
+		// empty prefix too; unprefixed name tests still mean "no namespace" (XPath 1.0 section 2.3)
+		w.opts = append(append([]xsel.ContextApply{}, w.opts...), xsel.WithNS("", rng.Pick(g, []string{"urn:a", "urn:b", "http://x.y/z"})))
+		r.Count("cases_with_the_empty_prefix_bound", 1)
 	}
 	shape := d.Shape()
 	total := len(d.All)
